@@ -36,8 +36,8 @@ func init() {
 			"exhaustive: every content of 0..3 bytes (INTEGER, OID, BIT STRING), 0..2 bytes (BOOLEAN), every 3-byte header prefix, every first octet x every 0x82 length from a boundary set, high-tag-number headers from boundary sets, a near-valid GeneralizedTime grammar; " +
 			"sampled: longer contents and headers. Each input is given to every matching strict decoder of zcrypto encoding/asn1 (int,int32,int64,*big.Int,Enumerated,bool,ObjectIdentifier,BitString,RawValue) and cryptobyte (ReadASN1Integer into 7 types, ReadASN1Int64WithTag, ReadASN1Enum, ReadASN1Boolean, ReadASN1ObjectIdentifier, ReadASN1BitString[AsBytes], ReadASN1GeneralizedTime, ReadAnyASN1[Element]). " +
 			"non-trivial = (decoder, input) pair that was ACCEPTED, so that the re-encode comparison actually ran; pairs from enumerated spaces are distinct by construction, sampled ones are counted by hash (1 in 8 is hashed; thorough 1 in 64)",
-		MinNontrivial:         100000000,
-		MinNontrivialThorough: 100000000,
+		MinNontrivial:         90000000,
+		MinNontrivialThorough: 90000000,
 		Shards:                16,
 		GoMaxProcs:            2,
 		Env:                   []string{"GOGC=400"},
